@@ -43,10 +43,11 @@ def project_cases(run, values, per_project=150):
 
 
 def _names(ast, kind):
+    """names as written in the file (characters, not symbol names)"""
     out = set()
     for p in ast:
         if p["k"] == kind:
-            out.add("".join(p["n"]))
+            out.add(vp.text_of(p["n"]))
         if p["k"] == "comp":
             out |= _names(p["c"], kind)
     return out
@@ -56,6 +57,18 @@ def _has_empty(ast):
     """an empty value or a component without children: leptos' SSR writes a one-space placeholder for an empty text
     node, which is an artefact of observing a view through its HTML, not a property of leptos_i18n"""
     return not ast or any(p["k"] == "comp" and _has_empty(p["c"]) for p in ast)
+
+
+def _tag_of(name):
+    return "".join(ch for ch in name if ch.isascii()) or "span"
+
+
+def _respell_tags(out, names):
+    for nme in names:
+        t = _tag_of(nme)
+        if t != nme:
+            out = out.replace("<%s>" % t, "<%s>" % nme).replace("</%s>" % t, "</%s>" % nme)
+    return out
 
 
 ENVS = [{"x": "X1", "y": "Y2"}, {"x": "{{ y }}<b>$t(a)", "y": ""}]
@@ -82,9 +95,11 @@ def l2_projects(run, pcases, max_projects):
                         if flav == "td" and _has_empty(asts[loc]):
                             continue
                         cid = len(calls) + 1
-                        args = [["var", v, json.dumps(env[v])] for v in vars_] + [["comp", k, k] for k in comps]
+                        # (a component is supplied as "wrap the children in an HTML element"; an element name must be ASCII, so a
+                        # component named `ié` wraps in <i> and the output is spelled back below)
+                        args = [["var", v, json.dumps(env[v])] for v in vars_] + [["comp", k, _tag_of(k)] for k in comps]
                         calls.append({"id": cid, "flav": flav, "locale": loc, "path": [name], "args": args})
-                        info[cid] = {"j": j + 1, "locale": loc, "flav": flav, "env": {v: to_syms(env[v]) for v in ("x", "y")}}
+                        info[cid] = {"j": j + 1, "locale": loc, "flav": flav, "env": {v: to_syms(env[v]) for v in ("x", "y")}, "comps": comps}
         projects.append({"name": "c01p%d" % pi, "cfg": c["cfg"], "files": c["files"], "calls": calls})
         meta.append(info)
     return projects, meta
@@ -110,7 +125,7 @@ def run_l2(run, pcases, max_projects):
             m = meta[pi][ev["call"]]
             seen.add(ev["call"])
             trace.append({"ev": "Render", "case": pi + 1, "j": m["j"], "locale": m["locale"], "flav": m["flav"], "env": m["env"],
-                          "outcome": ev["outcome"], "out": probe.to_syms(ev["out"])})
+                          "outcome": ev["outcome"], "out": probe.to_syms(_respell_tags(ev["out"], m.get("comps", [])))})
         if len(seen) != len(p["calls"]):
             raise vp.ToolError("probe %s printed %d of %d results (rc=%s, %s)" % (p["name"], len(seen), len(p["calls"]), r.get("rc"), r.get("stderr", "")[-300:]))
     trace.append({"ev": "End"})
